@@ -645,6 +645,24 @@ def _eval_sql_expr(e, env):
     raise KeyError(t)
 
 
+def _eval_sql_bool(e, env):
+    t = e[0]
+    if t == 'and':
+        return _eval_sql_bool(e[1], env) and _eval_sql_bool(e[2], env)
+    if t == 'or':
+        return _eval_sql_bool(e[1], env) or _eval_sql_bool(e[2], env)
+    if t == 'not':
+        return not _eval_sql_bool(e[1], env)
+    if t == 'cmp':
+        l, r = _eval_sql_expr(e[2], env), _eval_sql_expr(e[3], env)
+        return {'=': l == r, '!=': l != r, '<': l < r, '<=': l <= r, '>': l > r, '>=': l >= r, 'is': l == r,
+                'is not': l != r}[e[1]]
+    if t == 'isnull':
+        v = _eval_sql_expr(e[1], env)
+        return (v is not None) if e[2] else (v is None)
+    return bool(_eval_sql_expr(e, env))
+
+
 @rule('F10', floor=6, title='count/size are maintained by triggers for every INSERT/UPDATE/DELETE and assigned nowhere else')
 def f10(ctx):
     init = ctx.method('Cache', '__init__')
@@ -652,27 +670,41 @@ def f10(ctx):
     for p in ctx.paths(init, 'plain'):
         for ev in sql_events(p.trace, 'create_trigger'):
             triggers[ev.d['stmt'].name] = (ev.d['stmt'], ev)
-    effects = {}   # (event, counter) -> delta function result
-    env = {'value': 1000, 'NEW.size': 70, 'OLD.size': 30}
+    # net effect of all AFTER triggers on Cache per (event, counter), evaluated on sample rows: a WHEN guard that is
+    # false contributes nothing, several triggers for one event add up
+    samples = [(0, 0), (0, 30), (70, 0), (70, 30), (30, 30)]
+    want_fn = {('INSERT', 'count'): lambda n, o: 1, ('DELETE', 'count'): lambda n, o: -1,
+               ('INSERT', 'size'): lambda n, o: n, ('DELETE', 'size'): lambda n, o: -o,
+               ('UPDATE', 'size'): lambda n, o: n - o, ('UPDATE', 'count'): lambda n, o: 0}
+    totals = {}     # (event, counter) -> list of net deltas per sample (None = not evaluable)
     for name, (st, ev) in triggers.items():
         if (st.table or '').lower() != 'cache' or st.trigger_event[0] != 'AFTER':
             continue
         for b in st.trigger_body:
             if b.kind == 'update' and (b.table or '').lower() == 'settings' and len(b.assigns) == 1 \
                     and b.assigns[0][0] == 'value' and b.where and b.where[0] == 'cmp' and b.where[3][0] == 'str':
-                try:
-                    delta = _eval_sql_expr(b.assigns[0][1], env) - env['value']
-                except KeyError:
-                    delta = None
-                effects[(st.trigger_event[1], b.where[3][1])] = delta
-    want = {('INSERT', 'count'): 1, ('DELETE', 'count'): -1, ('INSERT', 'size'): 70, ('DELETE', 'size'): -30,
-            ('UPDATE', 'size'): 40}
+                k = (st.trigger_event[1], b.where[3][1])
+                cur = totals.setdefault(k, [0] * len(samples))
+                for i, (nw, od) in enumerate(samples):
+                    env = {'value': 1000, 'NEW.size': nw, 'OLD.size': od}
+                    try:
+                        fires = True if st.trigger_when is None else _eval_sql_bool(st.trigger_when, env)
+                        if st.trigger_of is not None and st.trigger_event[1] == 'UPDATE' and 'size' not in st.trigger_of:
+                            fires = False if k[1] == 'size' else fires
+                        d = (_eval_sql_expr(b.assigns[0][1], env) - env['value']) if fires else 0
+                    except KeyError:
+                        d = None
+                    cur[i] = None if (d is None or cur[i] is None) else cur[i] + d
     obs = []
-    for k, d in sorted(want.items()):
-        obs.append(Ob('F10', 'trigger/%s/%s' % k, effects.get(k) == d,
-                      'no AFTER %s trigger on Cache adjusts Settings.%s by the right amount (found %r): the counter '
-                      'drifts away from the rows' % (k[0], k[1], effects.get(k)), init.loc()))
-    extra = [k for k in effects if k not in want and effects[k] not in (0,)]
+    for k in [('INSERT', 'count'), ('DELETE', 'count'), ('INSERT', 'size'), ('DELETE', 'size'), ('UPDATE', 'size')]:
+        got = totals.get(k)
+        wantv = [want_fn[k](nw, od) for nw, od in samples]
+        obs.append(Ob('F10', 'trigger/%s/%s' % k, got == wantv,
+                      'the AFTER %s triggers on Cache do not adjust Settings.%s by the right amount for every row '
+                      '(net effect %r for (NEW.size, OLD.size) in %r, expected %r): the counter drifts away from the '
+                      'rows' % (k[0], k[1], got, samples, wantv), init.loc()))
+    extra = [k for k, got in totals.items() if k not in want_fn or
+             (k == ('UPDATE', 'count') and any(x != 0 for x in got))]
     obs.append(Ob('F10', 'trigger/no-extra', not extra, 'unexpected counter trigger(s): %s' % extra, init.loc()))
     # no direct assignment of count/size outside check(fix)
     bad = []
